@@ -38,28 +38,40 @@ Proof.
   apply IH. apply ix_drop_from_queue, ix_set_expo, H.
 Qed.
 
+Lemma iter_betside_ix A p0 so s ba fu pr pa bk : iter_betside A p0 so s = (ba, fu, pr, pa, bk) -> ix_eq (ws_book s) -> ix_eq bk.
+Proof. unfold iter_betside. intros H Hix. destruct so as [[st pay]|]; inv H; [apply ix_add_pair|]; exact Hix. Qed.
+
+Lemma iter_fulfilled_ix A idx it setf p1 pe1 uq bk0 p3 pe3 uq3 bk1 :
+  iter_fulfilled A idx it setf p1 pe1 uq bk0 = Some (p3, pe3, uq3, bk1) -> ix_eq bk0 -> ix_eq bk1.
+Proof.
+  unfold iter_fulfilled. intros H Hix. dmatch H; inv H; try exact Hix. apply ix_fold_secondary. exact Hix.
+Qed.
+
+Lemma iter_refresh_ix A idx it p3 bk2 fm uq3 bk5 fm2 uq5 :
+  iter_refresh A idx it p3 bk2 fm uq3 = (bk5, fm2, uq5) -> ix_eq bk2 -> ix_eq bk5.
+Proof.
+  unfold iter_refresh. cbv zeta. intros H Hix.
+  destruct (prep_expos _ bk2 _ _ None) as [bk3 pe4] eqn:EP.
+  pose proof (ix_prep_expos _ _ _ _ _ _ _ EP Hix) as H3.
+  match type of H with context [if ?c then _ else _] => destruct c end; inv H;
+    [apply ix_set_queues|]; apply ix_set_part; exact H3.
+Qed.
+
 Lemma wager_iter_ix A idx s s' : wager_iter A idx s = Some s' -> ix_eq (ws_book s) -> ix_eq (ws_book s').
 Proof.
   unfold wager_iter. intros H Hix.
   destruct (fmap_get (ws_fmap s) idx) as [it|]; [|discriminate].
   destruct (fi_pe it) as [pe0|]; [|discriminate].
-  cbv zeta in H.
-  repeat match type of H with
-  | context [let '(_, _) := ?x in _] => destruct x eqn:?
-  | context [match ?x with _ => _ end] => destruct x eqn:?; try discriminate H
-  | context [if ?x then _ else _] => destruct x eqn:?; try discriminate H
-  end; inv H; cbn [ws_book];
-  repeat match goal with
-  | X : (if ?c then _ else _) = _ |- _ => destruct c eqn:?
-  | X : (match ?x with _ => _ end) = _ |- _ => destruct x eqn:?
-  | X : Some _ = Some _ |- _ => inv X
-  | X : None = Some _ |- _ => discriminate X
-  | X : (_, _) = (_, _) |- _ => inv X
-  end;
-  repeat first
-    [ apply ix_set_queues | apply ix_set_part | apply ix_set_expo | apply ix_add_pair
-    | match goal with Hp : prep_expos _ _ _ _ _ = (_, _) |- _ => eapply ix_prep_expos; [exact Hp|] end
-    | apply ix_fold_secondary | assumption ].
+  destruct (iter_switch A (fi_part it) pe0 s) as [[[[p1 pe1] setf] so] c1].
+  destruct (iter_betside A (fi_part it) so s) as [[[[ba fu] pr] pa] bk0] eqn:EB.
+  pose proof (iter_betside_ix _ _ _ _ _ _ _ _ _ EB Hix) as H0.
+  destruct (iter_fulfilled A idx it setf p1 pe1 (ws_uq s) bk0) as [[[[p3 pe3] uq3] bk1]|] eqn:EF; [|discriminate].
+  pose proof (iter_fulfilled_ix _ _ _ _ _ _ _ _ _ _ _ _ EF H0) as H1.
+  assert (H2 : ix_eq (set_part (set_expo bk1 pe3) p3)) by (apply ix_set_part, ix_set_expo, H1).
+  destruct ((p_enf p3 =? 0) && eligible_pre p3).
+  - destruct (iter_refresh A idx it p3 _ (ws_fmap s) uq3) as [[bk5 fm2] uq5] eqn:ER. inv H. cbn [ws_book].
+    eapply iter_refresh_ix; [exact ER|exact H2].
+  - inv H. exact H2.
 Qed.
 
 Lemma wager_loop_ix fuel : forall A q s s', wager_loop fuel A q s = Some s' -> ix_eq (ws_book s) -> ix_eq (ws_book s').
